@@ -50,6 +50,9 @@ fn scalars(r: &mut ChaCha20Rng, n: usize) -> Vec<Vec<u8>> {
 
 pub fn record(out: &mut dyn Write, r: &mut ChaCha20Rng, n: usize) {
     emit(out, json!({"k":"reset","build":BUILD}));
+    constants(out);
+    extras(out, r, n);
+    emit(out, json!({"k":"reset","build":BUILD}));
     let g1o = <Ours as Pairing>::G1::generator();
     let g2o = <Ours as Pairing>::G2::generator();
     let g1r = <Refe as Pairing>::G1::generator();
@@ -132,6 +135,165 @@ pub fn record(out: &mut dyn Write, r: &mut ChaCha20Rng, n: usize) {
         let pow_r = gt_r.0.pow((sr(a) * sr(b)).into_bigint());
         emit(out, json!({"k":"blspair","a":a,"b":b,"ours":ser(&eo.0, true),"ref":ser(&er.0, true),
             "ours_pow":ser(&pow_o, true),"ref_pow":ser(&pow_r, true)}));
+    }
+}
+
+// ---- configuration constants of the tower / curves, ours vs reference ---------------------------
+trait Cfg12 {
+    type C: ark_ff::Fp12Config;
+}
+impl<P: ark_ff::Fp12Config> Cfg12 for ark_ff::Fp12<P> {
+    type C = P;
+}
+type C12O = <<Ours as Pairing>::TargetField as Cfg12>::C;
+type C12R = <<Refe as Pairing>::TargetField as Cfg12>::C;
+type C6O = <C12O as ark_ff::Fp12Config>::Fp6Config;
+type C6R = <C12R as ark_ff::Fp12Config>::Fp6Config;
+type C2O = <C6O as ark_ff::Fp6Config>::Fp2Config;
+type C2R = <C6R as ark_ff::Fp6Config>::Fp2Config;
+type G1CO = <<Ours as Pairing>::G1Affine as AffineRepr>::Config;
+type G1CR = <<Refe as Pairing>::G1Affine as AffineRepr>::Config;
+type G2CO = <<Ours as Pairing>::G2Affine as AffineRepr>::Config;
+type G2CR = <<Refe as Pairing>::G2Affine as AffineRepr>::Config;
+
+fn ser_slice<T: CanonicalSerialize>(xs: &[T]) -> Vec<u8> {
+    let mut v = Vec::new();
+    for x in xs {
+        x.serialize_uncompressed(&mut v).unwrap();
+    }
+    v
+}
+
+pub fn constants(out: &mut dyn Write) {
+    use ark_ec::short_weierstrass::SWCurveConfig;
+    use ark_ec::CurveConfig;
+    use ark_ff::{Fp12Config, Fp2Config, Fp6Config};
+    let mut k = |name: &str, o: Vec<u8>, r: Vec<u8>| {
+        emit(out, json!({"k":"blsconst","name":name,"ours":o,"ref":r}));
+    };
+    k("Fp2::NONRESIDUE", ser(&C2O::NONRESIDUE, false), ser(&C2R::NONRESIDUE, false));
+    k("Fp2::FROBENIUS_COEFF_FP2_C1", ser_slice(C2O::FROBENIUS_COEFF_FP2_C1), ser_slice(C2R::FROBENIUS_COEFF_FP2_C1));
+    k("Fp6::NONRESIDUE", ser(&C6O::NONRESIDUE, false), ser(&C6R::NONRESIDUE, false));
+    k("Fp6::FROBENIUS_COEFF_FP6_C1", ser_slice(C6O::FROBENIUS_COEFF_FP6_C1), ser_slice(C6R::FROBENIUS_COEFF_FP6_C1));
+    k("Fp6::FROBENIUS_COEFF_FP6_C2", ser_slice(C6O::FROBENIUS_COEFF_FP6_C2), ser_slice(C6R::FROBENIUS_COEFF_FP6_C2));
+    k("Fp12::NONRESIDUE", ser(&C12O::NONRESIDUE, false), ser(&C12R::NONRESIDUE, false));
+    k("Fp12::FROBENIUS_COEFF_FP12_C1", ser_slice(C12O::FROBENIUS_COEFF_FP12_C1), ser_slice(C12R::FROBENIUS_COEFF_FP12_C1));
+    k("G1::COEFF_A", ser(&G1CO::COEFF_A, false), ser(&G1CR::COEFF_A, false));
+    k("G1::COEFF_B", ser(&G1CO::COEFF_B, false), ser(&G1CR::COEFF_B, false));
+    k("G2::COEFF_A", ser(&G2CO::COEFF_A, false), ser(&G2CR::COEFF_A, false));
+    k("G2::COEFF_B", ser(&G2CO::COEFF_B, false), ser(&G2CR::COEFF_B, false));
+    k("G1::COFACTOR", limbs_to_bytes(G1CO::COFACTOR), limbs_to_bytes(G1CR::COFACTOR));
+    k("G2::COFACTOR", limbs_to_bytes(G2CO::COFACTOR), limbs_to_bytes(G2CR::COFACTOR));
+    k("G1::COFACTOR_INV", ser(&G1CO::COFACTOR_INV, false), ser(&G1CR::COFACTOR_INV, false));
+    k("G2::COFACTOR_INV", ser(&G2CO::COFACTOR_INV, false), ser(&G2CR::COFACTOR_INV, false));
+    k("G1::GENERATOR", ser(&G1CO::GENERATOR, false), ser(&G1CR::GENERATOR, false));
+    k("G2::GENERATOR", ser(&G2CO::GENERATOR, false), ser(&G2CR::GENERATOR, false));
+    {
+        use ark_ec::models::bls12::Bls12Config;
+        fn xs<C: Bls12Config>() -> Vec<u8> {
+            let mut v = limbs_to_bytes(C::X);
+            v.push(C::X_IS_NEGATIVE as u8);
+            v.push(match C::TWIST_TYPE {
+                ark_ec::models::bls12::TwistType::M => 1,
+                ark_ec::models::bls12::TwistType::D => 2,
+            });
+            v
+        }
+        trait CfgB {
+            type C: Bls12Config;
+        }
+        impl<P: Bls12Config> CfgB for ark_ec::models::bls12::Bls12<P> {
+            type C = P;
+        }
+        k("Bls12Config::X,X_IS_NEGATIVE,TWIST_TYPE", xs::<<Ours as CfgB>::C>(), xs::<<Refe as CfgB>::C>());
+    }
+}
+
+/// Frobenius maps against plain exponentiation, deserialisation of arbitrary strings, cofactor operations
+pub fn extras(out: &mut dyn Write, r: &mut ChaCha20Rng, n: usize) {
+    type F12O = <Ours as Pairing>::TargetField;
+    type F12R = <Refe as Pairing>::TargetField;
+    let p_limbs: Vec<u64> = bytes_to_limbs(&P_LE);
+    // p^i as limbs
+    let mut powers: Vec<Vec<u64>> = vec![vec![1]];
+    for _ in 1..12 {
+        let last = powers.last().unwrap().clone();
+        // schoolbook limb multiplication last * p
+        let mut acc = vec![0u128; last.len() + p_limbs.len() + 1];
+        for (i, a) in last.iter().enumerate() {
+            let mut carry = 0u128;
+            for (j, b) in p_limbs.iter().enumerate() {
+                let cur = acc[i + j] + (*a as u128) * (*b as u128) + carry;
+                acc[i + j] = cur & 0xffff_ffff_ffff_ffff;
+                carry = cur >> 64;
+            }
+            let mut kk = i + p_limbs.len();
+            while carry > 0 {
+                let cur = acc[kk] + carry;
+                acc[kk] = cur & 0xffff_ffff_ffff_ffff;
+                carry = cur >> 64;
+                kk += 1;
+            }
+        }
+        powers.push(acc.iter().map(|x| *x as u64).collect());
+    }
+    for t in 0..(n / 20 + 2) {
+        // the same element of Fp12 in both engines, built from 12 base-field coefficients given as integers
+        // (the two engines' random samplers legitimately differ, so the value is not sampled through them)
+        let coeffs: Vec<Vec<u8>> = (0..12).map(|_| rbytes(r, 64)).collect();
+        let co: Vec<<Ours as Pairing>::BaseField> = coeffs.iter().map(|b| <<Ours as Pairing>::BaseField as PrimeField>::from_le_bytes_mod_order(b)).collect();
+        let cr: Vec<<Refe as Pairing>::BaseField> = coeffs.iter().map(|b| <<Refe as Pairing>::BaseField as PrimeField>::from_le_bytes_mod_order(b)).collect();
+        let xo = F12O::from_base_prime_field_elems(&co).unwrap();
+        let xr = F12R::from_base_prime_field_elems(&cr).unwrap();
+        for i in 0..12usize {
+            if t > 0 && i % 3 != t % 3 {
+                continue;
+            }
+            let fo = xo.frobenius_map(i);
+            let po = xo.pow(&powers[i]);
+            let fr = xr.frobenius_map(i);
+            emit(out, json!({"k":"blsfrob","i":i,"x":ser(&xo, false),"xr":ser(&xr, false),"ours_frob":ser(&fo, false),"ours_pow":ser(&po, false),"ref_frob":ser(&fr, false)}));
+        }
+    }
+    emit(out, json!({"k":"reset","build":BUILD}));
+    // deserialisation of arbitrary strings: both engines must give the same verdict and the same point
+    for t in 0..n {
+        let (grp, len) = if t % 2 == 0 { ("G1", 48) } else { ("G2", 96) };
+        let mut b = rbytes(r, len);
+        match t % 5 {
+            0 => b[len - 1] &= 0x01,
+            1 => b[len - 1] = (b[len - 1] & 0x01) | 0x80,
+            2 => b[len - 1] = 0x40,
+            _ => b[len - 1] &= 0x81,
+        }
+        macro_rules! de {
+            ($G:ident) => {{
+                let o = <<Ours as Pairing>::$G as CurveGroup>::Affine::deserialize_compressed(&b[..]);
+                let rr = <<Refe as Pairing>::$G as CurveGroup>::Affine::deserialize_compressed(&b[..]);
+                let ou = <<Ours as Pairing>::$G as CurveGroup>::Affine::deserialize_compressed_unchecked(&b[..]);
+                let ru = <<Refe as Pairing>::$G as CurveGroup>::Affine::deserialize_compressed_unchecked(&b[..]);
+                let cof = match (&ou, &ru) {
+                    // clear_cofactor is NOT compared byte for byte: the reference clears with the effective cofactor
+                    // (1 - x), the crate's config with the full cofactor h; both must land in the subgroup
+                    (Ok(a), Ok(c)) => json!({"ours_clear_insub": a.clear_cofactor().is_in_correct_subgroup_assuming_on_curve(),
+                        "ref_clear_insub": c.clear_cofactor().is_in_correct_subgroup_assuming_on_curve(),
+                        "ours_mulcof": ser(&a.mul_by_cofactor(), false), "ref_mulcof": ser(&c.mul_by_cofactor(), false),
+                        "ours_mulinv": ser(&a.mul_by_cofactor_inv(), false), "ref_mulinv": ser(&c.mul_by_cofactor_inv(), false),
+                        "ours_insub": a.is_in_correct_subgroup_assuming_on_curve(), "ref_insub": c.is_in_correct_subgroup_assuming_on_curve()}),
+                    _ => json!({}),
+                };
+                emit(out, json!({"k":"blsdeser","grp":grp,"b":b,"ours_ok":o.is_ok(),"ref_ok":rr.is_ok(),
+                    "ours_unchecked_ok":ou.is_ok(),"ref_unchecked_ok":ru.is_ok(),
+                    "ours_re":o.map(|p| ser(&p, false)).unwrap_or_default(),"ref_re":rr.map(|p| ser(&p, false)).unwrap_or_default(),
+                    "ours_ure":ou.map(|p| ser(&p, false)).unwrap_or_default(),"ref_ure":ru.map(|p| ser(&p, false)).unwrap_or_default(),
+                    "cof":cof}));
+            }};
+        }
+        if grp == "G1" {
+            de!(G1)
+        } else {
+            de!(G2)
+        }
     }
 }
 
